@@ -30,6 +30,7 @@ func init() {
 	register("C09", &core.Rule{ID: "C09.5", Title: "timer is re-armed on every timer/flush path", Mod: core.ModCBP, Floor: 2, Run: c09_5})
 	register("C09", &core.Rule{ID: "C09.7", Title: "the flush timer is re-armed only after a send or its own tick, never by a mere arrival", Mod: core.ModCBP, Floor: 1, Run: c09_7})
 	register("C09", &core.Rule{ID: "C09.6", Title: "capacity tests in split callbacks read live state (a stale capacity overshoots send_batch_max_size)", Mod: core.ModCBP, Floor: 10, Run: c05_10, Canary: c05_10Canary})
+	register("C11", &core.Rule{ID: "C11.12", Title: "the split arm is entered only when count>max: otherwise the splitter hands back the shard's live buffer, and the export goroutine reads it while the shard loop keeps appending to it (a data race)", Mod: core.ModCBP, Floor: 3, Run: c09_2})
 	register("C06", &core.Rule{ID: "C06.12", Title: "the split arm is entered only when count>max: otherwise the splitter hands back the live buffer, the counter restarts at zero, and the next batch's outcome goes to callers whose items were not in it", Mod: core.ModCBP, Floor: 3, Run: c09_2})
 	register("C05", &core.Rule{ID: "C05.11", Title: "split arm entered only when count>max (the splitter returns its argument itself otherwise)", Mod: core.ModCBP, Floor: 3, Run: c09_2})
 }
